@@ -248,8 +248,12 @@ class MediaList(cssutils.util._NewListBase):
         self._checkReadonly()
         oldMedium = normalize(oldMedium)
 
-        for i, mq in enumerate(self):
-            if normalize(mq.value.mediaType) == oldMedium:
+        # index in the complete sequence, which may hold comments too
+        for i, item in enumerate(self._seq):
+            if (
+                item.type == 'MediaQuery'
+                and normalize(item.value.mediaType) == oldMedium
+            ):
                 del self[i]
                 break
         else:
@@ -263,7 +267,8 @@ class MediaList(cssutils.util._NewListBase):
         list, returns ``None``.
         """
         try:
-            return self[index].mediaType
+            # count media queries only, not comments
+            return list(self)[index].value.mediaType
         except IndexError:
             return None
 
